@@ -1,5 +1,5 @@
 From Coq Require Import List NArith Bool.
-From V.Ts Require Import Model Proofs Rearm Timing Extra Exact.
+From V.Ts Require Import Model Proofs Rearm Timing Extra Exact Multi MultiProofs.
 Import ListNotations.
 Open Scope N_scope.
 From V.C09 Require Import Properties.
@@ -99,3 +99,22 @@ Check (C09_other_connection_untouched :
   kfind k (s_last (fst (mid s dt i))) = kfind k (s_last s) /\
   kfind k (s_act (fst (mid s dt i))) = kfind k (s_act s) /\
   (handle_active (s_ctxs s) k = true -> handle_active (s_ctxs (fst (mid s dt i))) k = true)).
+Check (C09_multi_closed_iff_all_let_go :
+  forall tr cap cfg n0 p c,
+  mfeasible 2 env0 (minit cap cfg n0) tr = true -> In (p, c) (e_live (mefinal env0 tr)) ->
+  let m := mfinal (minit cap cfg n0) tr in
+  (mstrong (m_svcs m) c = 0 <-> Forall (fun s => let_go s (p, c)) (m_svcs m)) /\
+  map (fun s => (s_ka s, s_T s)) (m_svcs m) = cfg /\
+  Forall (fun s => s_now s = elapsed tr) (m_svcs m)).
+Check (C09_multi_active_iff_recent :
+  forall tr cap cfg n0 s k,
+  mfeasible 2 env0 (minit cap cfg n0) tr = true ->
+  In s (m_svcs (mfinal (minit cap cfg n0) tr)) -> In k (e_live (mefinal env0 tr)) ->
+  exists t, kfind k (s_act s) = Some t /\ t <= s_now s /\
+            (handle_active (s_ctxs s) k = true <-> s_now s < t + s_T s)).
+Check (C09_multi_next_none_iff :
+  forall m dt c,
+  In c (m_sets m) ->
+  (snd (snd (mstep m dt (MNext c))) = NEnd <->
+   qfind c (push_all 0 (m_q m) (fst (snd (mstep m dt (MNext c))))) = [] /\
+   mstrong (m_svcs (fst (mstep m dt (MNext c)))) c = 0)).
